@@ -55,7 +55,8 @@ type ether struct {
 	mu    sync.Mutex
 	provs []*etherProvider
 	// Delay draws the propagation delay of one announcement to one listener.
-	Delay func() time.Duration
+	Delay  func() time.Duration
+	hidden map[string]bool
 	// Down: the multicast medium is unusable (announcements are lost)
 	Down atomic.Bool
 }
@@ -116,8 +117,24 @@ func (p *etherProvider) itemLocked(remove bool) etherItem {
 	return etherItem{txt: append([]string(nil), p.txt...), name: p.name, host: p.node + ".local", addrs: []net.IP{p.ip}, port: p.port, remove: remove}
 }
 
+// hideFrom makes the announcements of node `who` invisible to node `viewer`.
+func (e *ether) hideFrom(viewer, who string) {
+	e.mu.Lock()
+	if e.hidden == nil {
+		e.hidden = map[string]bool{}
+	}
+	e.hidden[viewer+"<"+who] = true
+	e.mu.Unlock()
+}
+
 // send schedules the delivery of it to q.
 func (e *ether) send(q *etherProvider, it etherItem) {
+	e.mu.Lock()
+	hid := e.hidden[q.node+"<"+strings.TrimSuffix(it.host, ".local")]
+	e.mu.Unlock()
+	if hid {
+		return
+	}
 	if e.Down.Load() {
 		e.x.S.Fault("mdns-lost")
 		return
